@@ -598,6 +598,9 @@ func genCaseNA(t *rapid.T) CaseNA {
 		nv := 1
 		if multi {
 			nv = rapid.IntRange(1, 4).Draw(t, "nv")
+			if oneIn(t, "nv_needle", 40) {
+				nv = manyN(t, "nv_many", 70)
+			}
 		}
 		var vals []NAVal
 		for i := 0; i < nv; i++ {
@@ -619,7 +622,7 @@ func genCaseNA(t *rapid.T) CaseNA {
 	if string(c.EOL) == "\r" {
 		c.EOL = B("\r\n") // next line starts with a known byte; keep the lone CR for C07
 	}
-	c.CtCap = pick(t, "ctcap", -1, 0, 1, 2, 3, 10, -2)
+	c.CtCap = pick(t, "ctcap", -1, 0, 1, 2, 3, 10, -2, 16, 17, 33)
 	if c.CtCap == -2 && c.Entry == "headers" {
 		c.CtCap = -1
 	}
